@@ -6,7 +6,7 @@ import numpy as np
 
 
 class IBM:
-    def __init__(self, modules, kills=None, age=False, logfile=None, marker="sibm", agelimit=None, kill_tags=None, **kw):
+    def __init__(self, modules, kills=None, age=False, logfile=None, marker="sibm", agelimit=None, kill_tags=None, touchfile=None, **kw):
         self.modules = modules
         self.kills = {int(k): list(v) for k, v in (kills or {}).items()}
         self.kill_tags = {int(k): list(v) for k, v in (kill_tags or {}).items()}
@@ -15,8 +15,12 @@ class IBM:
         self.log = []
         self.dt = modules["time"].dt / np.timedelta64(1, "s")
         self.closed = 0
+        self.touchfile = touchfile
 
     def update(self):
+        if self.touchfile:
+            with open(self.touchfile, "a") as f:
+                f.write("update\n")
         st = self.modules["state"]
         step = self.modules["time"].step
         self.log.append(dict(step=step, pid=st.pid.tolist(), alive=st.alive.tolist(), X=st.X.tolist(), Y=st.Y.tolist(), Z=st.Z.tolist()))
